@@ -34,6 +34,10 @@ func runC13(p *Program, r *Result) {
 	r.Rule("R13.1", "no error result is dropped in the library packages", 300)
 	checkNoDroppedErrors(p, r, libPkgs)
 
+	r.Rule("R13.5", "deferred closures do not overwrite the error being returned; source errors stay reachable through %w", 5)
+	checkDeferredOverwrite(p, r, libPkgs)
+	checkSourceErrorsWrapped(p, r, libPkgs)
+
 	r.Rule("R13.2", "a failed stream.Writer keeps failing", 3)
 	if write, flush, cls := r.anchor(pkgStream, "Writer", "Write"), r.anchor(pkgStream, "Writer", "flushChunk"), r.anchor(pkgStream, "Writer", "Close"); write != nil && flush != nil && cls != nil {
 		wtb := p.TB(write)
